@@ -1005,6 +1005,18 @@ PATCHES = {
         "                object_parents = self.get_nodes(\n"
         "                    \"name\",\n"
         "                    rf\"(\\.|^){node_object.component_form}(\\.|$)\",")]),
+    "fix-unique-parent-variant": ("graph", [(
+        "        if len(filtered_parents) == 1:\n"
+        "            if len(filtered_parents[0].cloned_nodes) > 0:",
+        "        # a reusable parent must use the child's own variant of every vm the two share\n"
+        "        child_vms = {o.long_suffix: o.component_form for o in test_node.objects if o.key == \"vms\"}\n"
+        "        filtered_parents = [\n"
+        "            p for p in filtered_parents\n"
+        "            if all(child_vms.get(o.long_suffix, o.component_form) == o.component_form\n"
+        "                   for o in p.objects if o.key == \"vms\")\n"
+        "        ]\n"
+        "        if len(filtered_parents) == 1:\n"
+        "            if len(filtered_parents[0].cloned_nodes) > 0:")]),
     "fix-objects-of-later-workers": ("graph", [(
         "                graph.new_objects([s for s in stubs if s.key == \"nets\"])",
         "                known_ids = {o.id for o in graph.objects}\n"
@@ -1065,6 +1077,7 @@ class patched:
 # ---------------------------------------------------------------------------------------------
 
 FINDING_OF_PATCH = [
+    (("fix-unique-parent-variant",), "unique-parent-reuse-ignores-shared-vm-variant"),
     (("fix-shadowed-test_object",), "shadowed-test_object"),
     (("fix-objects-of-later-workers",), "first-worker-restricts-vm-objects"),
     (("fix-shadowed-test_object", "fix-objects-of-later-workers"), "shadowed-test_object+first-worker-restricts-vm-objects"),
